@@ -57,13 +57,15 @@ fn pair(i: usize, acct: &'static str) -> (Option<&'static str>, Option<&'static 
         11 => (Some("0.25 "), Some(acct)),
         12 => (Some(" 0.25"), Some(acct)),
         // another rate, collected by the ask-fee account (for the bid pair: one account for both fees, two rates)
-        _ => (Some("0.5"), Some("askfee")),
+        13 => (Some("0.5"), Some("askfee")),
+        // more decimal places than a 96-bit decimal carries (31): still the number 0.25
+        _ => (Some("0.2500000000000000000000000000000"), Some(acct)),
     }
 }
 fn attrs(i: usize) -> Vec<&'static str> {
     [vec![], vec!["kyc"]][i].clone()
 }
-const DIMS: [usize; 10] = [2, 2, 2, 3, 6, 5, 14, 14, 2, 2];
+const DIMS: [usize; 10] = [2, 2, 2, 3, 6, 5, 15, 15, 2, 2];
 
 impl Shape {
     fn baseline(p: u128, inc: u128) -> Shape {
